@@ -85,6 +85,44 @@ theorem C04_upgrade (A : Aead) (leftover : Bytes) (cs : List Bytes) :
   · intro h; simp [upgrade, h]
   · intro h; simp only [upgrade, h, if_false]; exact run_closed A cs _ rfl
 
+/-- Re-keying (pair-verify completed again inside a secured session). Whatever happened in the first
+    session, once the new key is installed an open connection behaves exactly like a freshly secured
+    one under the NEW cipher — so `C04_authentic`, `C04_prompt` and `C04_tamper` apply verbatim with
+    the new key and counter 0 (next two theorems) — and a closed connection stays closed and silent. -/
+theorem C04_rekey (A2 : Aead) (r : Rx) (cs : List Bytes) :
+    (r.closed = false → Rx.run A2 r.rekey cs = Rx.run A2 {} cs) ∧
+    (r.closed = true → Rx.run A2 r.rekey cs = (r, [])) := by
+  constructor
+  · intro h; simp [Rx.rekey, h]
+  · intro h; simp only [Rx.rekey, h, if_true]; exact run_closed A2 cs r h
+
+/-- Two authentic sessions on one connection: every chunking of the frames of session 1 (sealed under
+    the first key from counter 0) and, after the re-key, every chunking of the frames of session 2
+    (sealed under the second key, AGAIN from counter 0) plus any incomplete tail, hands over exactly
+    the payloads of each session, in order, and leaves the connection open. -/
+theorem C04_rekey_authentic (A1 A2 : Aead) (h1 : Correct A1) (h2 : Correct A2) (ps1 ps2 : List Bytes)
+    (hps1 : ∀ p ∈ ps1, 1 ≤ p.length ∧ p.length ≤ MAXBLK)
+    (hps2 : ∀ p ∈ ps2, 1 ≤ p.length ∧ p.length ≤ MAXBLK) (t : Bytes) (ht : Incomplete t)
+    (cs1 cs2 : List Bytes) (hcs1 : cs1.flatten = wires A1 0 ps1)
+    (hcs2 : cs2.flatten = wires A2 0 ps2 ++ t) :
+    Rx.run2 A1 A2 {} cs1 cs2 =
+      ({ buf := t, cnt := ps2.length, closed := false }, ps1.flatten, ps2.flatten) := by
+  have hinc : Incomplete ([] : Bytes) := Or.inl (by simp [MINBLK])
+  have e1 := C04_authentic A1 h1 ps1 hps1 [] hinc cs1 (by simpa using hcs1)
+  have e2 := C04_authentic A2 h2 ps2 hps2 t ht cs2 hcs2
+  simp [Rx.run2, e1, Rx.rekey, e2]
+
+/-- After a re-key only the NEW session counts: if only what the sender sealed under the new key opens
+    (`Ideal A2 ps2`), then whatever the first session was and for EVERY byte stream in EVERY chunking
+    — frames still produced under the superseded key, or under the new key with the old counter, are
+    instances — the bytes handed over after the re-key are exactly the first `cnt` payloads of the
+    new session, in order. -/
+theorem C04_rekey_tamper (A2 : Aead) (ps2 : List Bytes) (hI : Ideal A2 ps2) (r : Rx)
+    (hopen : r.closed = false) (cs : List Bytes) :
+    (Rx.run A2 r.rekey cs).2 = (ps2.take (Rx.run A2 r.rekey cs).1.cnt).flatten ∧
+    (Rx.run A2 r.rekey cs).1.cnt ≤ ps2.length := by
+  rw [(C04_rekey A2 r cs).1 hopen]; exact C04_tamper A2 ps2 hI cs
+
 /-- The loop as it was before the repair (`>` instead of `>=`) does not deliver a complete
     19-byte frame (1-byte payload) that sits at the end of the buffer; the repaired loop does. -/
 theorem C04_legacy_counterexample :
@@ -99,6 +137,15 @@ example : Ideal (tableAead [[1, 2], [3]]) [[1, 2], [3]] ∧
   ⟨table_ideal _, by decide⟩
 example : (Rx.run (mockAead 3) {} [(wire (mockAead 3) 0 [1, 2]).take 5,
       (wire (mockAead 3) 0 [1, 2]).drop 5 ++ wire (mockAead 3) 1 [9]]).2 = [1, 2, 9] := by
+  decide +kernel
+
+/-- re-key, concrete: two sessions (mock keys 3 then 5); a frame still sealed under the superseded key
+    (with the counter the old session had reached) closes the connection and hands over nothing. -/
+example :
+    let ok := Rx.run2 (mockAead 3) (mockAead 5) {} [wire (mockAead 3) 0 [1, 2]] [wire (mockAead 5) 0 [7]]
+    let stale := Rx.run2 (mockAead 3) (mockAead 5) {} [wire (mockAead 3) 0 [1, 2]] [wire (mockAead 3) 1 [7]]
+    (ok.1.closed, ok.1.cnt, ok.2.1, ok.2.2) = (false, 1, [1, 2], [7]) ∧
+    (stale.1.closed, stale.2.1, stale.2.2) = (true, [1, 2], []) := by
   decide +kernel
 
 end Hap.Frame
